@@ -142,6 +142,10 @@ class Watch:
         if r.kind == 'global':
             if r.name.startswith('_ZGV') or 'vtable' in r.name:
                 return
+            if v is not None and not isinstance(v, z3.ExprRef) and not isinstance(v, Ptr) and not isinstance(v, list):
+                # a compile-time constant stored once (guarded initialisation of a function-local static constant):
+                # no dependence on arguments or history
+                return
             self.hits.append(('global-write', 'store to global %s' % r.name, list(st.pc), r.name))
         elif r.rid in self.protected:
             self.hits.append(('const-arg-write', 'store to %s at offset %s' % (self.protected[r.rid], off), list(st.pc),
@@ -308,7 +312,7 @@ def run(chk):
     by_rel = dict((os.path.relpath(s, REPO), p) for s, p in irs.items())
     todo = []
     mods = {}
-    tier_budget = 20 if chk.tier == 'quick' else 120
+    tier_budget = 20 if chk.tier == 'quick' else 60
     targets = list(TUS)
     # translation units outside the calculation layer that mention a mutable global outside a load are added
     for (rel, fname), uses in susp.items():
